@@ -21,6 +21,18 @@ impl InterfaceInner {
             return None;
         }
 
+        // TCP is strictly unicast. Per RFC 1122 §4.2.3.10, segments addressed to (or claiming to
+        // come from) a broadcast or multicast address must be silently discarded: they must
+        // neither reach a socket (a listener would adopt the broadcast address as its local
+        // address) nor be answered with a RST (which would carry that address as its source).
+        if !src_addr.is_unicast()
+            || !dst_addr.is_unicast()
+            || self.is_broadcast(&src_addr)
+            || self.is_broadcast(&dst_addr)
+        {
+            return None;
+        }
+
         let tcp_packet = check!(TcpPacket::new_checked(ip_payload));
         let tcp_repr = check!(TcpRepr::parse(
             &tcp_packet,
